@@ -22,6 +22,58 @@ def map_field_of(body, op):
     return m.group(1) if m else None
 
 
+def insert_if_absent_via_entry(body, bi):
+    """the call at block `bi` is `map.entry(k)` used as `map.entry(k).or_insert(v);` - insert unless present, the returned RefMut
+    dropped on the spot: the entry's only use is as the receiver of or_insert / or_insert_with / or_default, whose result is never
+    read or written through. Returns the block of that or_insert call, or None"""
+    t = body.term(bi)
+    if t["k"] != "call" or t["dest"]["p"]:
+        return None
+    el = t["dest"]["l"]
+    users = []
+    for bj, tt in body.calls():
+        for a in tt.get("args", []):
+            pl = op_place(a)
+            if pl is not None and pl["l"] == el:
+                users.append((bj, tt))
+    if len(users) != 1:
+        return None
+    bj, tt = users[0]
+    nm = strip_generics(mir.callee_name(tt) or "")
+    if not (nm.startswith("dashmap::") and nm.split("::")[-2] == "Entry") or nm.split("::")[-1] not in ("or_insert", "or_insert_with", "or_default") or tt["dest"]["p"]:
+        return None
+    rl = tt["dest"]["l"]
+    # the RefMut is not used: no statement or call mentions it (drops aside)
+    for bk in range(body.n):
+        for st in body.blocks[bk]["stmts"]:
+            if st["k"] == "assign":
+                txt = repr(st["rv"])
+                if re.search(r"'l': %d\b" % rl, txt) or (st["lhs"]["l"] == rl and (bk, "stmt") != (bj, "term")):
+                    return None
+        tk = body.term(bk)
+        if tk["k"] == "call" and bk != bj:
+            for a in tk.get("args", []):
+                pl = op_place(a)
+                if pl is not None and pl["l"] == rl:
+                    return None
+    # ... and it is released before anything else happens: from the or_insert call the guard is dropped (or its storage ends)
+    # before the next call - a `let _g = map.entry(k).or_insert(v);` that lives to the end of the scope holds the write lock
+    cur = tt.get("t")
+    for _i in range(6):
+        if cur is None:
+            return None
+        blk = body.blocks[cur]
+        if any(st["k"] == "dead" and st["l"] == rl for st in blk["stmts"]):
+            return bj
+        tk = blk["term"]
+        if tk["k"] == "drop" and not tk["place"]["p"] and tk["place"]["l"] == rl:
+            return bj
+        if tk["k"] not in ("goto", "drop"):
+            return None
+        cur = tk.get("t")
+    return None
+
+
 class LockRule:
     def __init__(self, ctx):
         self.ctx = ctx
@@ -177,7 +229,9 @@ class LockRule:
             body = prog.bodies[fid]
             for fld, meth, bi in sorted(acc):
                 key = "K3:%s:%s.%s" % (body.short, fld, meth)
-                if meth in ALLOWED_METHODS:
+                if meth == "entry" and insert_if_absent_via_entry(body, bi) is not None:
+                    rep.ok("R-LOCK", key, body.where(bi), "K3: entry(k).or_insert(v) with the returned guard dropped at once: insert-if-absent, nothing cached is changed")
+                elif meth in ALLOWED_METHODS:
                     rep.ok("R-LOCK", key, body.where(bi), "K3: %s() on .%s hands out no &mut and removes nothing" % (meth, fld))
                 else:
                     rep.bad("R-LOCK", "R-LOCK:" + key, body.where(bi), "K3: DashMap::%s on cache .%s: %s" % (meth, fld, "hands out mutable access to / removes cached storage that readers may be looking at" if meth in MUTABLE_HANDOUT else "method outside the audited set {get, contains_key, insert}"))
